@@ -380,3 +380,75 @@ Definition dhistory_ok (ops : list (dop * option (list nat))) (final : list (lis
   | Some s => streams_match s final
   | None => false
   end.
+
+(* ------------------------------------------------------------------ the recorder's event loop *)
+
+(* eventLoop keeps a cached read-out (`lastEvents`), a save timer armed 5 s after the last change,
+   and the history file.  Every change must drop the cache; a read-out or the save recompute it
+   when it is missing (getEventsList(&lastEvents)). *)
+Record lstate := mkL { l_map : rstate; l_cache : option rstate; l_file : option rstate; l_armed : bool }.
+
+Inductive lop :=
+| LRec (o : rop)        (* an event arrives on one of the five channels *)
+| LHourly (now : Z)     (* hourly timer: expireOldEvents *)
+| LRequest              (* a history request: answers with the (cached) read-out *)
+| LSave.                (* the save timer fires *)
+
+(* getEventsList(&lastEvents) *)
+Definition l_get (st : lstate) : lstate * rstate :=
+  match l_cache st with
+  | Some c => (st, c)
+  | None => (mkL (l_map st) (Some (l_map st)) (l_file st) (l_armed st), l_map st)
+  end.
+
+Definition lstep (st : lstate) (o : lop) : lstate :=
+  match o with
+  | LRec r =>
+      match rop_event r with
+      | Some _ => mkL (rstep (l_map st) r) None (l_file st) true
+      | None => st
+      end
+  | LHourly now =>
+      if expire_changed now (l_map st)
+      then mkL (map_lists (expire (min_ctime now)) (l_map st)) None (l_file st) true
+      else st
+  | LRequest => fst (l_get st)
+  | LSave =>
+      if l_armed st
+      then let (st', snap) := l_get st in mkL (l_map st') (l_cache st') (Some snap) false
+      else st
+  end.
+Definition lrun (ops : list lop) (st : lstate) : lstate := fold_left lstep ops st.
+
+(* a freshly started recorder: newEventRecorder loads the file, the loop computes the read-out once *)
+Definition l_start (now : Z) (file : option rstate) : lstate :=
+  let m := match file with Some f => map_lists (fun l => load (min_ctime now) l) f | None => [] end in
+  mkL m (Some m) file false.
+
+(* correspondence: requests are compared with the answer, saves with the file content *)
+Inductive lobs := LNone | LAnswer (d : list (bs * list ev)) | LFile (d : list (bs * list ev)).
+
+Fixpoint lcheck (st : lstate) (ops : list (lop * lobs)) : bool :=
+  match ops with
+  | [] => true
+  | (o, ob) :: r =>
+      let ans_ok := match o, ob with
+                    | LRequest, LAnswer d => dump_matches d (snd (l_get st))
+                    | _, _ => true
+                    end in
+      let st' := lstep st o in
+      let file_ok := match ob with
+                     | LFile d => match l_file st' with Some f => dump_matches d f | None => false end
+                     | _ => true
+                     end in
+      ans_ok && file_ok && lcheck st' r
+  end.
+
+(* a daemon life with restarts: each segment starts from the file the previous one left *)
+Fixpoint lcheck_segs (file : option rstate) (now : Z) (segs : list (list (lop * lobs))) : bool :=
+  match segs with
+  | [] => true
+  | seg :: r =>
+      let st0 := l_start now file in
+      lcheck st0 seg && lcheck_segs (l_file (lrun (map fst seg) st0)) now r
+  end.
